@@ -171,9 +171,13 @@ func TestVerifC04(t *testing.T) {
 		r.Eval(fmt.Sprintf("iocopy:len%%64=%d", n%64))
 	}
 
-	// (4) long message crossing the 2^32-bit length boundary cheaply is out of
-	// reach (512 MiB); lengths up to 1 MiB check the bit-length encoding.
-	for _, n := range []int{1 << 16, 1<<16 + 1, 1 << 20} {
+	// (4) long messages: the bit-length encoding; the thorough tier crosses the 2^32-bit boundary
+	// (512 MiB + 5 bytes)
+	longs := []int{1 << 16, 1<<16 + 1, 1 << 20, 1<<21 + 3}
+	if hk.Thorough() {
+		longs = append(longs, 1<<29+5)
+	}
+	for _, n := range longs {
 		data := rng.Bytes(n)
 		h := New()
 		h.Write(data[:n/3])
